@@ -6,8 +6,8 @@ Proof side (Pygom/Props/C06.lean): the shape decision tree of `_setWeight_or_spr
 cost as the sum over observations and observed states of the per-entry kernel (`cost_is_loss`), zero
 square cost at the truth (`square_cost_zero_at_truth`).
 
-Tie: (i) `BaseLoss._setWeight_or_spread` and `get_state_index` against the Lean driver (`broadcast`,
-`sensIndex`) exactly, on integer inputs, accepted and rejected shapes; (ii) DIRECT ORACLE, no Lean, no pygom
+Tie: (i) `BaseLoss._setWeight_or_spread`, `get_state_index` and `_setParam` against the Lean driver (`broadcast`,
+`sensIndex`, `setParam`) exactly, on integer inputs, accepted and rejected shapes; (ii) DIRECT ORACLE, no Lean, no pygom
 kernel/integrator/evaluator (see losscommon.py): `cost`, `residual`, `costIV` of the real loss objects
 against scipy.stats log-densities / squared weighted residuals of an independent DOP853 (1e-12) trajectory
 of the right-hand side the Lean driver assembled (random models) or a hand-written one (catalogue models).
@@ -22,7 +22,7 @@ from . import losscommon as LC
 PROP = "C06"
 LEAN = {"module": "Pygom.Props.C06",
         "required": ["Pygom.C06.broadcast_spec", "Pygom.C06.broadcast_accepts_iff", "Pygom.C06.solution_selection",
-                     "Pygom.C06.cost_is_loss", "Pygom.C06.square_cost_zero_at_truth"]}
+                     "Pygom.C06.theta_bound_by_name", "Pygom.C06.cost_is_loss", "Pygom.C06.square_cost_zero_at_truth"]}
 BUDGET = {"quick": {"cases": 1000, "broadcast": 50, "per_batch": 40},
           "thorough": {"cases": 40000, "broadcast": 600, "per_batch": 60}}
 RULE = ("random bounded models (gen_model, autonomous, 2-4 states, 1-4 parameters, short horizons) and catalogue models "
@@ -239,6 +239,8 @@ def run_loss(case):
     W = LC.expand(case["weights"][0], case["weights"][1], n, p)
     evaluated = 0
     margins = [0.0]
+    checked_setparam = False
+    from fractions import Fraction
     for cls in case.get("classes", LC.CLASSES):
         if cls not in data or (cls in LC.NEEDS_POSITIVE and lowest < 0.02):
             tags.append("skipped:%s:trajectory-not-positive" % cls)
@@ -262,6 +264,31 @@ def run_loss(case):
                          "signature": sg("constructor") + ":raises:" + type(exc).__name__, "detail": json.dumps(case)[:1500]})
             continue
         evaluated += 1
+        if not checked_setparam:
+            # theta -> (name, value) binding of _setParam, exactly, against the driver (private: compared when it exists)
+            checked_setparam = True
+            for extra in (0, 1):
+                arg = [s["theta_eval"][params.index(k)] for k in (tp if tp is not None else params)] + [0.5] * extra
+                lp = leanio.driver().call({"op": "setParam", "numParam": len(params), "target_param": tp,
+                                           "theta": [str(Fraction(repr(v))) for v in arg]})
+                try:
+                    obj._setParam(arg)
+                    th = obj._theta
+                    py = ({"kind": "byName", "pairs": [[str(k), float(v)] for k, v in th.items()]} if isinstance(th, dict) else
+                          {"kind": "positional", "theta": [float(v) for v in th]})
+                except AttributeError:
+                    tags.append("private-helper-missing:_setParam")
+                    continue
+                except Exception as exc:
+                    py = {"err": type(exc).__name__}
+                ll = dict(lp)
+                if "pairs" in ll:
+                    ll["pairs"] = [[k, float(Fraction(v))] for k, v in ll["pairs"]]
+                if "theta" in ll:
+                    ll["theta"] = [float(Fraction(v)) for v in ll["theta"]]
+                tags.append("setParam:" + (py.get("kind") or py.get("err")))
+                if ll != py:
+                    mism.append({"what": "_setParam", "detail": "target_param=%s theta=%s python=%s lean=%s" % (tp, arg, py, ll)})
 
         def check(site, got, ref_tr, w_used, what):
             yhat = ref_tr[:, idx]
